@@ -72,6 +72,15 @@ BUILTIN_RAISES = [
     ('exception-in-class-body', "class K:\n    y = undefined_thing"),
     ('exception-in-lambda', "f = lambda v: v.missing\nf(3)"),
     ('exception-in-generator', "def gen():\n    yield 1\n    raise ValueError('gen')\nfor v in gen():\n    pass"),
+    ('user-exception-setattr-raises', "class MyError(Exception):\n    def __setattr__(self, k, v):\n        raise ValueError('frozen')\nraise MyError('mine')"),
+    ('user-exception-len-zero', "class MyError(Exception):\n    def __len__(self):\n        return 0\nraise MyError('mine')"),
+    ('user-exception-bool-raises', "class MyError(Exception):\n    def __bool__(self):\n        raise RuntimeError('no bool')\nraise MyError('mine')"),
+    ('user-exception-eq-raises', "class MyError(Exception):\n    def __eq__(self, other):\n        raise RuntimeError('no eq')\n    __hash__ = None\nraise MyError('mine')"),
+    ('user-exception-args-raises', "class MyError(Exception):\n    @property\n    def args(self):\n        raise RuntimeError('no args')\nraise MyError('mine')"),
+    ('user-exception-getattr-raises', "class MyError(Exception):\n    def __getattr__(self, name):\n        raise RuntimeError('no attribute ' + name)\nraise MyError('mine')"),
+    ('user-exception-metaclass-name', "class Meta(type):\n    def __str__(cls):\n        raise RuntimeError('no class str')\n    __repr__ = __str__\nclass MyError(Exception, metaclass=Meta):\n    pass\nraise MyError('mine')"),
+    ('exception-after-stdout-closed', "import sys\nsys.stdout.close()\nx = 1 / 0"),
+    ('exception-after-stdout-replaced', "import sys\nsys.stdout = None\nx = 1 / 0"),
     ('exception-deep-frames', "def d0(n):\n    if n == 0:\n        return 1 // 0\n    return d0(n - 1)\nd0(12)"),
     ('exception-in-method', "class K:\n    def m(self):\n        return self.zzz\nK().m()"),
     ('exception-in-sorted-key', "sorted([3, 1], key=lambda v: v.k)"),
@@ -97,6 +106,8 @@ BASE = [
 OKAY = [
     ('ok-print', "print('fine')"), ('ok-silent', "x = 1"), ('ok-input', "v = input('p')\nprint(v)"),
     ('ok-import', "import json\nimport string\nprint(json.dumps([1]))"), ('ok-handled', "try:\n    1 / 0\nexcept ZeroDivisionError:\n    print('handled')"),
+    ('ok-stdout-closed', "import sys\nprint('said')\nsys.stdout.close()"), ('ok-stdout-reassigned', "import sys, io\nsys.stdout = io.StringIO()\nprint('lost')"),
+    ('ok-stdout-deleted', "import sys\ndel sys.stdout"), ('ok-sleep-replaced', "import time\ntime.sleep = None"),
     ('ok-sleep', "import time\ntime.sleep(0.01)\nprint('slept')"), ('ok-write', "import sys\nsys.stdout.write('w')"),
 ]
 COMPILE_FAIL = [
@@ -207,7 +218,7 @@ def build_files(mode, entry):
     if entry in ('call', 'evaluate'):
         return {'answer.py': PRELUDE + 'def trigger(a=1, b=2):\n' + indent(body) + '\n    return a + b\n'}
     if entry == 'import':
-        return {'answer.py': PRELUDE + 'import helper\nprint("after import")\n', 'helper.py': 'h = 1\n' + body + '\n'}
+        return {'answer.py': PRELUDE + 'import helper\nprint("after import", helper.h)\n', 'helper.py': 'h = 1\n' + body + '\n'}
     if entry == 'run-code':
         return {'answer.py': PRELUDE + 'x = 5\n'}
     raise ValueError(entry)
@@ -277,7 +288,7 @@ def reference(files, entry, inputs, call_args=()):
                         r.line = tb[-1].lineno
     finally:
         time.sleep = real_sleep
-    r.output = buf.getvalue()
+    r.output = buf.getvalue() if not buf.closed else ''
     return r
 
 
@@ -344,6 +355,21 @@ class Snapshot:
         for k, v in self.modules.items():
             if sys.modules.get(k) is not v:
                 sys.modules[k] = v
+
+
+def safe_text(exc):
+    """describe an exception object that may come from hostile student code (raising __str__/__bool__/__getattr__)"""
+    try:
+        return traceback.format_exception_only(type(exc), exc)[-1][:300]
+    except BaseException as e:
+        return '<%s, not printable: %s>' % (type(exc).__name__, type(e).__name__)
+
+
+def safe_repr(x):
+    try:
+        return repr(x)
+    except BaseException as e:
+        return '<%s object, repr raises %s>' % (type(x).__name__, type(e).__name__)
 
 
 def site_of(exc):
@@ -479,7 +505,7 @@ def _measured(ctx, which, case, sandbox, report, files, inputs, n_rt_before):
             ctx.violation('C05|not-restored|%s|after-%s|%s%s' % (what if what != 'sys.gettrace' else 'sys.gettrace|tracer=' + tracer,
                                                                   termination_class(kind, mode, raised), 'raised' if raised else 'returned',
                                                                   '' if envname == 'plain' else '|' + envname),
-                          strip(case), {'what': what, 'detail': detail, 'raised': repr(raised)[:200]})
+                          strip(case), {'what': what, 'detail': detail, 'raised': safe_repr(raised)[:200]})
         added = snap.added_modules()
         if added:
             ctx.count('modules_added_during_call_(not judged)', len(added))
@@ -516,14 +542,14 @@ def _measured(ctx, which, case, sandbox, report, files, inputs, n_rt_before):
         snap.restore(); sandbox._current_patches.clear(); sandbox._current_stdout.clear()
     if raised is not None:
         ctx.violation('C04|escaped|%s|%s|%s' % (type(raised).__name__, site_of(raised), mode_family(mode)), strip(case),
-                      traceback.format_exception_only(type(raised), raised)[-1][:300] + ' @ ' + site_of(raised))
+                      safe_text(raised) + ' @ ' + site_of(raised))
         return
     exc = unwrap(sbx.get_exception())
     new_rt = runtime_feedbacks(report)[n_rt_before:]
     want_cls = ref.cls
-    if kind == 'ok' or (ref.exc is None and kind != 'blocked'):
+    if ref.exc is None and kind != 'blocked':     # (an 'ok' body can still fail in one entry: printing after the helper closed stdout)
         if exc is not None:
-            ctx.violation('C04|spurious-exception|%s' % mode_family(mode), strip(case), repr(exc)[:300])
+            ctx.violation('C04|spurious-exception|%s' % mode_family(mode), strip(case), safe_repr(exc)[:300])
         if new_rt:
             ctx.violation('C04|spurious-runtime-feedback|%s' % mode_family(mode), strip(case), [f.label for f in new_rt])
         ctx.count('normal_terminations')
@@ -535,14 +561,14 @@ def _measured(ctx, which, case, sandbox, report, files, inputs, n_rt_before):
             want_cls = type(exc).__name__
         ctx.count('blocked_feature_cases')
     if exc is None:
-        ctx.violation('C04|exception-not-recorded|%s|%s' % (mode_family(mode), key_tail), strip(case), 'get_exception() is None, reference: %r' % (ref.exc,))
+        ctx.violation('C04|exception-not-recorded|%s|%s' % (mode_family(mode), key_tail), strip(case), 'get_exception() is None, reference: %s' % safe_repr(ref.exc))
     else:
         got_cls = type(exc).__name__
         if isinstance(exc, BaseException) is False:
-            ctx.violation('C04|exception-not-an-exception|%s' % mode_family(mode), strip(case), repr(exc)[:200])
+            ctx.violation('C04|exception-not-an-exception|%s' % mode_family(mode), strip(case), safe_repr(exc)[:200])
         elif want_cls is not None and got_cls != want_cls:
             ctx.violation('C04|wrong-exception-class|%s|%s' % (mode_family(mode), key_tail), strip(case),
-                          'reference %s, sandbox %s: %r' % (want_cls, got_cls, exc))
+                          'reference %s, sandbox %s: %s' % (want_cls, got_cls, safe_repr(exc)))
     if len(new_rt) != 1:
         ctx.violation('C04|runtime-feedback-count-%d|%s|%s' % (len(new_rt), mode_family(mode), key_tail), strip(case),
                       [(f.label, f.title) for f in new_rt])
@@ -567,6 +593,17 @@ def _measured(ctx, which, case, sandbox, report, files, inputs, n_rt_before):
             tb = traceback.extract_tb(exc.__traceback__) if isinstance(exc, BaseException) else []
             if tb and tb[-1].filename in STUDENT_FILES:
                 want_line = tb[-1].lineno
+        if kind == 'compile' and entry in ('run', 'call', 'evaluate') and isinstance(ref.exc, SyntaxError) \
+                and ref.exc.filename in STUDENT_FILES and ref.exc.lineno is not None:
+            # the student's own file does not compile: the failure is on the line the SyntaxError names - a location
+            # that is a line number of one of pedal's own files is not "the student's own line"
+            got_line = getattr(fb.location, 'line', None)
+            ctx.count('compile_failure_lines_compared')
+            n_student_lines = files['answer.py'].count('\n') + 1
+            if got_line is not None and got_line != ref.exc.lineno:
+                ctx.violation('C04|compile-failure-located-%s|%s' % ('outside-the-student-file' if got_line > n_student_lines else 'on-another-line', key_tail), strip(case),
+                              'SyntaxError names %s line %r; the file has %d lines; feedback line %r' % (
+                                  ref.exc.filename, ref.exc.lineno, n_student_lines, got_line))
         if want_line is not None:
             got_line = getattr(fb.location, 'line', None)
             ctx.count('lines_compared')
@@ -581,7 +618,7 @@ def _measured(ctx, which, case, sandbox, report, files, inputs, n_rt_before):
         except Exception as e:
             ctx.violation('C04|feedback-message-raises|%s' % mode_family(mode), strip(case), repr(e)[:300])
     if ctx.evaluations % 151 == 0:
-        ctx.sample({'case': strip(case), 'reference': [ref.cls, ref.line], 'sandbox_exception': repr(exc)[:120],
+        ctx.sample({'case': strip(case), 'reference': [ref.cls, ref.line], 'sandbox_exception': safe_repr(exc)[:120],
                     'runtime_feedbacks': [(f.label, getattr(f.location, 'line', None)) for f in new_rt]})
 
 
